@@ -14,6 +14,7 @@ use std::collections::{BTreeMap, HashSet};
 use std::time::Duration;
 use vcore::evid::{guarded, Run, Tier, Violation};
 use vcore::par::par_indices;
+use vcore::rterm::RData;
 
 pub const BATCH: usize = 64;
 
@@ -83,7 +84,17 @@ fn class_of(body: &Expr) -> &'static str {
     }
 }
 
-pub fn check_function(st: &Stratum, sidx: usize, fidx: usize, body: &Expr, program: &uplc::ast::Program<uplc::ast::Name>, w: &Worker, mode: Mode, l: &mut Local) {
+#[allow(clippy::too_many_arguments)]
+pub fn check_function(st: &Stratum, sidx: usize, fidx: usize, body: &Expr, program: &uplc::ast::Program<uplc::ast::Name>, s0: Option<&uplc::ast::Program<uplc::ast::Name>>, w: &Worker, mode: Mode, l: &mut Local) {
+    // A disagreement that the optimiser introduced (the pre-optimisation program agrees with
+    // the source semantics) is reported under the signature C02 gives it, so that one defect
+    // has one identity in both checks.
+    let attribute = |default: String, data: &[RData]| -> String {
+        match s0.and_then(|s0| crate::c02::attribute_to_optimiser(&function_source("f", st, body), body, s0, program, data)) {
+            Some(sig) => format!("introduced-by-the-optimiser|{sig}"),
+            None => default,
+        }
+    };
     let tuples = arg_tuples(st);
     let mut results: HashSet<String> = HashSet::new();
     let case0 = |args: &Vec<Val>| json!({"engine":"c01","stratum":st.name,"stratum_index":sidx,"function_index":fidx,"source":function_source("f", st, body),"args":args.iter().map(show_val).collect::<Vec<_>>()});
@@ -130,14 +141,14 @@ pub fn check_function(st: &Stratum, sidx: usize, fidx: usize, body: &Expr, progr
             }
             (Err(Stop::Abort(why)), Ran::Value(t)) => {
                 l.violations.push(Violation {
-                    signature: format!("succeeds-but-source-aborts|{}|{}", why, class_of(body)),
+                    signature: attribute(format!("succeeds-but-source-aborts|{}|{}", why, class_of(body)), &data),
                     what: format!("the source semantics aborts ({why}) but the compiled code returns {}:\n{}args: {}", uplc_short(t), function_source("f", st, body), args.iter().map(show_val).collect::<Vec<_>>().join(", ")),
                     case: case0(args),
                 });
             }
             (Ok(v), Ran::Error(k)) => {
                 l.violations.push(Violation {
-                    signature: format!("aborts-but-source-succeeds|{}|{}", k.split(':').next().unwrap_or(""), class_of(body)),
+                    signature: attribute(format!("aborts-but-source-succeeds|{}|{}", k.split(':').next().unwrap_or(""), class_of(body)), &data),
                     what: format!("the source semantics gives {} but the compiled code fails with {k}:\n{}args: {}", show_val(v), function_source("f", st, body), args.iter().map(show_val).collect::<Vec<_>>().join(", ")),
                     case: case0(args),
                 });
@@ -148,7 +159,7 @@ pub fn check_function(st: &Stratum, sidx: usize, fidx: usize, body: &Expr, progr
                 match decode(t, &st.ret) {
                     Some(g) if &g == v => {}
                     Some(g) => l.violations.push(Violation {
-                        signature: format!("wrong-value|{}", class_of(body)),
+                        signature: attribute(format!("wrong-value|{}", class_of(body)), &data),
                         what: format!("the source semantics gives {} but the compiled code returns {}:\n{}args: {}", show_val(v), show_val(&g), function_source("f", st, body), args.iter().map(show_val).collect::<Vec<_>>().join(", ")),
                         case: case0(args),
                     }),
@@ -251,10 +262,10 @@ pub fn run_strata(run: &mut Run, tier: Tier, mode: Mode) {
                 let e = l.per_stratum.entry(st.name.to_string()).or_default();
                 e.0 += 1;
                 let compiled = guarded(|| {
+                    let _ = aiken_lang::verif_hooks::drain_pre_optimisation();
                     let mut g = proj.generator(silent());
                     let p = g.generate_raw(&f.body, &f.arguments, crate::driver::MODULE_NAME);
-                    let _ = aiken_lang::verif_hooks::drain_pre_optimisation();
-                    p
+                    (p, aiken_lang::verif_hooks::drain_pre_optimisation().pop())
                 });
                 match compiled {
                     Err(p) => {
@@ -264,9 +275,9 @@ pub fn run_strata(run: &mut Run, tier: Tier, mode: Mode) {
                             case: json!({"engine":"c01","stratum":st.name,"stratum_index":si,"function_index":start+k,"source":function_source("f", st, body)}),
                         });
                     }
-                    Ok(program) => {
+                    Ok((program, s0)) => {
                         let before = l.evaluations;
-                        check_function(st, si, start + k, body, &program, w, mode, l);
+                        check_function(st, si, start + k, body, &program, s0.as_ref(), w, mode, l);
                         l.per_stratum.get_mut(st.name).unwrap().1 += l.evaluations - before;
                         if l.samples.len() < 2 && (start + k) % 997 == 3 {
                             l.samples.push(function_source("f", st, body));
@@ -364,10 +375,12 @@ fn replay_case(path: &str) -> i32 {
         }
         let src = function_source("f0", st, body);
         let (proj, fns) = w.check_batch(&[src], silent()).expect("type check");
+        let _ = aiken_lang::verif_hooks::drain_pre_optimisation();
         let mut g = proj.generator(silent());
         let program = g.generate_raw(&fns[0].body, &fns[0].arguments, crate::driver::MODULE_NAME);
+        let s0 = aiken_lang::verif_hooks::drain_pre_optimisation().pop();
         let mut l = Local::default();
-        check_function(st, si as usize, fi as usize, body, &program, &w, Mode::C01, &mut l);
+        check_function(st, si as usize, fi as usize, body, &program, s0.as_ref(), &w, Mode::C01, &mut l);
         if l.violations.is_empty() {
             println!("no violation on replay");
             return 0;
